@@ -28,6 +28,7 @@ pub struct Scn {
     pub senders: Vec<(u8, u16)>, // (messages, busy work between sends)
     pub recv: Recv,
     pub late_receiver: u16, // busy work the receiver does before its first receive
+    pub observers: u8,      // extra processes that await the receiver (and the first sender) while it runs
 }
 
 #[derive(Clone, Debug)]
@@ -44,7 +45,7 @@ pub fn strategy(n_cfgs: usize) -> impl Strategy<Value = Case> {
         3 => work.clone().prop_map(|helper_work| Recv::Mix { helper_work }),
         2 => Just(Recv::ParityFirst),
     ];
-    let scn = (prop::collection::vec((1u8..5, work.clone()), 2..5), recv, work).prop_map(|(senders, recv, late_receiver)| Scn { senders, recv, late_receiver });
+    let scn = (prop::collection::vec((1u8..5, work.clone()), 2..5), recv, work, prop_oneof![2 => Just(0u8), 3 => 1u8..5]).prop_map(|(senders, recv, late_receiver, observers)| Scn { senders, recv, late_receiver, observers });
     let cfg = (1u8..=5, 0u8..6, prop::collection::vec(any::<u8>(), 0..220));
     (scn, prop::collection::vec(cfg, n_cfgs)).prop_map(|(scn, cfgs)| Case { scn, cfgs })
 }
@@ -81,9 +82,15 @@ pub fn render(s: &Scn) -> String {
     for (i, (n, work)) in s.senders.iter().enumerate() {
         lines.push(format!("s{i} = [&r, {i}, 0, {n}, {work}] @sender"));
     }
+    for i in 0..s.observers {
+        lines.push(format!("o{i} = @{{ !r, !s0 }}"));
+    }
     let mut fields = vec!["!r".to_string()];
     for i in 0..s.senders.len() {
         fields.push(format!("!s{i}"));
+    }
+    for i in 0..s.observers {
+        fields.push(format!("!o{i}"));
     }
     lines.push(format!("[{}]", fields.join(", ")));
     lines.join(",\n")
@@ -274,6 +281,9 @@ pub fn run(ctx: &Ctx) -> i32 {
                 if f.interleaved {
                     stats.class("senders-interleaved-in-log");
                 }
+                if case.scn.observers >= 2 {
+                    stats.class("several-processes-await-the-running-receiver");
+                }
                 if case.scn.late_receiver > 100 {
                     stats.class("messages-arrive-before-receiver-selects");
                 }
@@ -300,7 +310,7 @@ pub fn run(ctx: &Ctx) -> i32 {
                 replay: json!({"kind": "c04", "scenario": format!("{:?}", minimal.scn), "source": render(&minimal.scn),
                     "senders": minimal.scn.senders.iter().map(|(n, w)| json!([n, w])).collect::<Vec<_>>(),
                     "recv": match &minimal.scn.recv { Recv::All => json!("all"), Recv::TagFirst { tag } => json!({"tag": tag}), Recv::Mix { helper_work } => json!({"mix": helper_work}), Recv::ParityFirst => json!("parity") },
-                    "late": minimal.scn.late_receiver,
+                    "late": minimal.scn.late_receiver, "observers": minimal.scn.observers,
                     "cfgs": minimal.cfgs.iter().map(|(w, q, s)| json!({"workers": w, "quantum": QUANTA[*q as usize % QUANTA.len()], "schedule": hex(s)})).collect::<Vec<_>>()}),
             });
         }
@@ -311,12 +321,12 @@ pub fn run(ctx: &Ctx) -> i32 {
         ctx,
         stats: &stats,
         violations,
-        rule: "fan-in scenarios: 2-4 sender processes each send Msg[sender, 0..n] to one receiver with generated busy work between sends; the receiver (optionally busy before its first receive) takes them all in arrival order, or through a capturing filter for one sender first, or through a parity filter (evens, then odds), or in a select that mixes the typed receive with an await of a helper process; run under a baseline and 8 (quick) generated configurations (workers 1-5, quantum in {1,2,3,7,64,1000}, partial-visibility schedules); judged on the receiver's log: every sent message exactly once, per-sender order, filter phases pure, and the run must end with all results (an idle system with a blocked process is a lost wake-up); evaluations = simulator runs; non-trivial = >= 2 workers and different senders alternating in the log; distinct by scenario text".into(),
+        rule: "fan-in scenarios: 2-4 sender processes each send Msg[sender, 0..n] to one receiver with generated busy work between sends; the receiver (optionally busy before its first receive) takes them all in arrival order, or through a capturing filter for one sender first, or through a parity filter (evens, then odds), or in a select that mixes the typed receive with an await of a helper process; 0-4 observer processes additionally await the receiver and the first sender while they run; run under a baseline and 8 (quick) generated configurations (workers 1-5, quantum in {1,2,3,7,64,1000}, partial-visibility schedules); judged on the receiver's log: every sent message exactly once, per-sender order, filter phases pure, and the run must end with all results (an idle system with a blocked process is a lost wake-up); evaluations = simulator runs; non-trivial = >= 2 workers and different senders alternating in the log; distinct by scenario text".into(),
         assumptions: vec![
             "scenarios are terminating by construction, so reaching global quiescence without the entry result is judged as a lost wake-up".into(),
             "transport model: FIFO per channel with arbitrary delay; fan-out, pipelines, request/reply, await chains and late awaits are covered by the confluent generator of C03".into(),
         ],
-        required_classes: vec!["receiver:all", "receiver:capturing-filter-then-rest", "receiver:select-mixing-receive-and-await", "receiver:parity-filter-skips-then-takes-later", "senders-interleaved-in-log", "messages-arrive-before-receiver-selects"],
+        required_classes: vec!["receiver:all", "receiver:capturing-filter-then-rest", "receiver:select-mixing-receive-and-await", "receiver:parity-filter-skips-then-takes-later", "senders-interleaved-in-log", "several-processes-await-the-running-receiver", "messages-arrive-before-receiver-selects"],
         started,
         technique: "proptest-generated fan-in scenarios x schedules in the deterministic simulator; oracle = history invariant on the receiver log + termination (no idle system with a blocked process)",
     })
@@ -330,7 +340,7 @@ pub fn replay(payload: &serde_json::Value) -> Result<(), String> {
         o if o.get("tag").is_some() => Recv::TagFirst { tag: o["tag"].as_u64().unwrap_or(0) as u8 },
         o => Recv::Mix { helper_work: o["mix"].as_u64().unwrap_or(0) as u16 },
     };
-    let scn = Scn { senders, recv, late_receiver: payload["late"].as_u64().unwrap_or(0) as u16 };
+    let scn = Scn { senders, recv, late_receiver: payload["late"].as_u64().unwrap_or(0) as u16, observers: payload["observers"].as_u64().unwrap_or(0) as u8 };
     let cfgs = payload["cfgs"].as_array().cloned().unwrap_or_default().iter().map(|c| {
         let q = c["quantum"].as_u64().unwrap_or(1000) as usize;
         (c["workers"].as_u64().unwrap_or(1) as u8, QUANTA.iter().position(|x| *x == q).unwrap_or(5) as u8, unhex(c["schedule"].as_str().unwrap_or("")))
